@@ -86,11 +86,14 @@ typedef struct { unsigned gp_offset, fp_offset; void *overflow_arg_area, *reg_sa
 #ifndef FRGV_ATOMIC_HOOK_STORE
 #  define FRGV_ATOMIC_HOOK_STORE(p, v, o) ((void)0)
 #endif
+#ifndef FRGV_ATOMIC_HOOK_STORED          /* after the store took effect (a reader may run now) */
+#  define FRGV_ATOMIC_HOOK_STORED(p, o) ((void)0)
+#endif
 #ifndef FRGV_ATOMIC_HOOK_RMW
 #  define FRGV_ATOMIC_HOOK_RMW(p, o) ((void)0)
 #endif
 #define FRGV_ATOMIC_LOAD(p, o) (FRGV_ATOMIC_HOOK_LOAD((p), (o)), *(p))
-#define FRGV_ATOMIC_STORE(p, v, o) ({ __typeof__(*(p)) __frgv_v = (v); FRGV_ATOMIC_HOOK_STORE((p), __frgv_v, (o)); *(p) = __frgv_v; (void)0; })
+#define FRGV_ATOMIC_STORE(p, v, o) ({ __typeof__(*(p)) __frgv_v = (v); FRGV_ATOMIC_HOOK_STORE((p), __frgv_v, (o)); *(p) = __frgv_v; FRGV_ATOMIC_HOOK_STORED((p), (o)); (void)0; })
 #define FRGV_ATOMIC_EXCHANGE(p, v, o) ({ FRGV_ATOMIC_HOOK_RMW((p), (o)); __typeof__(*(p)) __frgv_o = *(p); *(p) = (v); __frgv_o; })
 #define FRGV_ATOMIC_FETCH_ADD(p, v, o) ({ FRGV_ATOMIC_HOOK_RMW((p), (o)); __typeof__(*(p)) __frgv_o = *(p); *(p) = __frgv_o + (v); __frgv_o; })
 #define FRGV_ATOMIC_FETCH_SUB(p, v, o) ({ FRGV_ATOMIC_HOOK_RMW((p), (o)); __typeof__(*(p)) __frgv_o = *(p); *(p) = __frgv_o - (v); __frgv_o; })
